@@ -486,6 +486,23 @@ func runCheck(repo, verif, prop, tier, keep string, claim bool) int {
 	for _, a := range refineAssumed {
 		assume[a] = true
 	}
+	for _, fr := range runs {
+		if fr.enc == nil {
+			continue
+		}
+		for k := range fr.enc.usedAxioms {
+			assume["trusted spec axioms (spec/*.smt2) triggered by: "+k] = true
+		}
+	}
+	// modelling assumptions of the encoding itself (DESIGN.md Appendix B), the same for every property
+	for _, a := range []string{
+		"encoding: Go integers are mathematical integers with explicit wrap-around at their bit width; &, |, ^ are uninterpreted except for masks 2^k-1",
+		"encoding: no slice, string or map with more than 2^40 elements exists; allocation never fails; fresh objects differ from all existing ones",
+		"encoding: single goroutine; panics of nil dereference, index, slice, division, type assertion, make, nil-map write and uncomparable interface comparison are separate safe:* obligations and are assumed not to happen after the point where they are checked",
+		"encoding: defer/recover, channels, select and reflection are not modelled (calls are havoc unless a contract says otherwise)",
+	} {
+		assume[a] = true
+	}
 	var assumptions []string
 	for a := range assume {
 		assumptions = append(assumptions, a)
